@@ -11,6 +11,7 @@ from y0.graph import NxMixedGraph
 __all__ = [
     "get_ancestors_of_counterfactual",
     "get_ancestral_components",
+    "get_ancestral_set_root_variable",
     "minimize_counterfactual",
 ]
 
@@ -210,6 +211,36 @@ def _get_ancestral_set_after_intervening_on_conditioned_variables(
         event=ancestral_set_root_variable, graph=graph_with_interventions
     )
     return frozenset(new_ancestral_set)
+
+
+def get_ancestral_set_root_variable(
+    *,
+    conditioned_variables: set[Variable],
+    ancestral_set_root_variable: Variable,
+    graph: NxMixedGraph,
+) -> Variable:
+    r"""Get the form in which a root variable appears in its own ancestral set.
+
+    The set $An(W_{\mathbf{t}})_{\mathcal{G}_{\underline{\mathbf{X_{\ast}(W_{\mathbf{t}})}}}}$ contains
+    $W_{\mathbf{t}}$ itself in minimized form (Definition 2.1 of [correa22a]_): of the interventions
+    $\mathbf{t}$ it keeps those on ancestors of $W$ in the graph the ancestral set is computed in. The ancestral
+    components are unions of such sets, so this is the form under which to look up $W_{\mathbf{t}}$ in them.
+
+    :param conditioned_variables: Following [correa22a]_ this is $\mathbf{X_{\ast}}$, a set of variables that
+           are conditioned on in a query. They may be Variable or CounterfactualVariable objects.
+    :param ancestral_set_root_variable: following [correa22a]_ this is $W_{\mathbf{t}}$, a variable
+           that is used to generate an ancestral set.
+    :param graph: the relevant graph (the target domain graph in [correa22a]_).
+    :returns: $\|W_{\mathbf{t}}\|$ in $\mathcal{G}_{\underline{\mathbf{X_{\ast}(W_{\mathbf{t}})}}}$, the element
+           of the ancestral set of $W_{\mathbf{t}}$ that stands for $W_{\mathbf{t}}$ itself.
+    """
+    conditioned_variables_in_ancestral_set = _get_conditioned_variables_in_ancestral_set(
+        conditioned_variables=conditioned_variables,
+        ancestral_set_root_variable=ancestral_set_root_variable,
+        graph=graph,
+    )
+    graph_with_interventions = graph.remove_out_edges(conditioned_variables_in_ancestral_set)
+    return minimize_counterfactual(ancestral_set_root_variable, graph_with_interventions)
 
 
 def _compute_ancestral_components_from_ancestral_sets(
